@@ -84,11 +84,13 @@ type tally struct {
 	outcomes          map[string]int64
 	byBound           map[string]int64
 	fails             []failure
-	samples           []any
+	samples           map[string][]any // by sweep/codec, a few each
 	diverged          bool
 }
 
-func newTally() *tally { return &tally{outcomes: map[string]int64{}, byBound: map[string]int64{}} }
+func newTally() *tally {
+	return &tally{outcomes: map[string]int64{}, byBound: map[string]int64{}, samples: map[string][]any{}}
+}
 
 func (t *tally) merge(o *tally) {
 	t.evals += o.evals
@@ -100,8 +102,10 @@ func (t *tally) merge(o *tally) {
 		t.byBound[k] += v
 	}
 	t.fails = append(t.fails, o.fails...)
-	if len(t.samples) < 200 {
-		t.samples = append(t.samples, o.samples...)
+	for k, v := range o.samples {
+		if len(t.samples[k]) < 3 {
+			t.samples[k] = append(t.samples[k], v...)
+		}
 	}
 }
 
@@ -134,8 +138,8 @@ func explore(r *report.R, st Case, parallel bool) *tally {
 				return
 			}
 			t.outcomes[v.outcome]++
-			if len(t.samples) < 2 && (ch.Deviations() == 1 || st.Sweep == "dest") && (int64(len(st.Kind)+len(st.Hex)+len(st.Value))+r.Seed)%5 == 0 {
-				t.samples = append(t.samples, map[string]any{"case": c, "outcome": v.outcome})
+			if key := st.Sweep + "/" + st.Codec; len(t.samples[key]) < 1 && ch.Deviations() >= 1 && st.GenLen == 0 && (int64(len(st.Kind)+len(st.Hex)+len(st.Value)+len(c.Choices))+r.Seed)%5 == 0 {
+				t.samples[key] = append(t.samples[key], map[string]any{"case": c, "outcome": v.outcome})
 			}
 		}
 		var n int64
@@ -435,9 +439,17 @@ func main() {
 	for _, f := range total.fails {
 		r.Fail(f.class, f.what, f.c)
 	}
-	sort.SliceStable(total.samples, func(i, j int) bool { return i%7 < j%7 })
-	for _, sm := range total.samples {
-		r.Sample(sm)
+	keys := make([]string, 0, len(total.samples))
+	for k := range total.samples {
+		keys = append(keys, k)
+	}
+	sort.Strings(keys)
+	for round := 0; round < 3; round++ {
+		for _, k := range keys {
+			if round < len(total.samples[k]) {
+				r.Sample(total.samples[k][round])
+			}
+		}
 	}
 	r.Set("static_cases_with_unreplayable_branches", divergedCases)
 	for k, v := range total.outcomes {
